@@ -92,7 +92,7 @@ pub fn spec() -> PropSpec {
             PropCheck::new("roundtrip", |ctx| {
                 let cfg = SeqCfg { max_ops: if ctx.tier == Tier::Thorough { 40 } else { 12 }, ..SeqCfg::DEFAULT };
                 (gen::msg_seq(cfg), gen::partition()).prop_map(|(seq, partition)| Case { seq, partition }).boxed()
-            }, 12_000, 400_000, eval),
+            }, 150_000, 3_000_000, eval),
             EnumCheck::new("large", false, large_cases, eval),
         ],
     }
